@@ -45,6 +45,8 @@ def datasets(tier):
         # other dimensions of length one must survive a selection
         {'family': 'cf1d', 'ny': 2, 'nx': 2, 'nt': 1, 'nk': 1},
         {'family': 'ugrid', 'mesh': 'M1', 'nt': 1, 'nk': 2},
+        # overlapping cells: a point inside the overlap belongs to the lower index whatever was asked before it
+        {'family': 'cf1d', 'ny': 2, 'nx': 3, 'bounds': 'overlap'},
     ]
     if tier == 'thorough':
         specs += [
@@ -167,6 +169,28 @@ def run_index_case(case, rec):
                 compare_selection(rec, fp + '-single', result, truth, kind, cells, None, shift, nan_cell, label, geometry_names)
             except LibraryRaised as err:
                 rec.check(False, f"{fp}-single/raised", label, 'dataset', str(err))
+    # state carried between calls: after a selection the user assigns a new variable and replaces another one on
+    # the same dataset object; the next selection must show the dataset as it is now
+    if case['length'] == 1 and not case['names_taken'] and kind == truth.default_kind:
+        rec.nontrivial('select-assign-select')
+        first = alphabet[-1]
+        try:
+            lib(convention.select_indexes, [natives[first]])
+            ds['added_later'] = ds['botz'] * 2 + 1
+            ds['eta'] = ds['eta'] + 7
+            again = lib(convention.select_indexes, [natives[first]])
+            botz_label = ref.expected_values(truth.vars['botz'], size, shift)[..., first]
+            eta_label = ref.expected_values(truth.vars['eta'], size, shift)[..., first]
+            want_added = botz_label * 2 + 1 if first != nan_cell else np.nan
+            got_added = float(again['added_later'].values.ravel()[0]) if 'added_later' in again.variables else None
+            ok = got_added is not None and (got_added == want_added or (got_added != got_added and want_added != want_added))
+            rec.check(ok, f"{fp}/stale-after-assignment", "a variable assigned after an earlier selection is missing or wrong in the next selection",
+                      want_added, got_added)
+            got_eta = again['eta'].transpose(*truth.vars['eta']['extras'], ...).values.ravel()
+            rec.check(ref.same_values(got_eta.astype('float64'), (eta_label + 7).astype('float64').ravel()), f"{fp}/stale-after-assignment",
+                      "a variable replaced after an earlier selection still shows its old values", (eta_label + 7).ravel(), got_eta)
+        except LibraryRaised as err:
+            rec.check(False, f"{fp}/raised", "select / assign / select raised", 'dataset', str(err))
     rec.outcome([truth.family, kind, case['length'], case['names_taken']])
 
 
@@ -212,6 +236,10 @@ def run_points_case(case, rec):
         return min(hits) if hits else None
 
     names = ['hit', 'tie', 'second', 'miss']
+    if case['length'] <= 3:
+        # a request with missing coordinates (a blank cell of a table) intersects nothing: one more kind of miss
+        names = names + ['blank']
+        symbols['blank'] = Point(float('nan'), float('nan'))
     for combo in itertools.product(names, repeat=case['length']):
         points = [symbols[s] for s in combo]
         cells = [cell_of(p) for p in points]
@@ -285,7 +313,9 @@ def run_points_case(case, rec):
             for column, want in (('name', [f'row{k}' for k in rows]), ('lon', [points[k].x for k in rows]),
                                  ('lat', [points[k].y for k in rows])):
                 got = list(result[column].values) if column in result.variables else None
-                rec.check(got == want, f"{fp}/dataframe-columns", f"{label}: column {column}", want, got)
+                same = got is not None and len(got) == len(want) and all(
+                    (a == b) or (isinstance(a, float) and isinstance(b, float) and a != a and b != b) for a, b in zip(got, want))
+                rec.check(same, f"{fp}/dataframe-columns", f"{label}: column {column}", want, got)
             size = int(np.prod(truth.kinds[kind]['shape']))
             for vt in truth.vars.values():
                 if vt['kind'] != kind:
